@@ -8,3 +8,9 @@ package sql
 //@ func (*fielded).percentileExprFor
 //@   requires f != nil && e != nil
 //@   modifies *
+
+// C16: CROSSHIFT(value, cutoff, interval) expands into one shifted field per interval step; the expansion loop must
+// terminate for every pair of signs of cutoff and interval a client may send (the step is made positive first).
+//@ func (*selectClause).addCrosshiftExpr
+//@   modifies *
+//@   loop 0 decreases limit - i
